@@ -581,13 +581,16 @@ func variants14(c *Chooser, s Session, base *sessRun) []Variant {
 						continue
 					}
 					f := simos.Fault{Step: j, Kind: k}
+					if k == simos.FStdoutENOSPC || k == simos.FStdoutEIO {
+						f.Param = c.Pick(2, 1, 1) * c.Int(600) // nothing, or a prefix, reached the medium
+					}
 					vs = append(vs, Variant{Clause: "fault", Proc: i, Fault: &f})
 				}
 			}
 			runStart = -1
 		}
 		for j, st := range res.Steps {
-			thin := st.Kind == simos.SWrite || st.Kind == simos.SStdinRead || st.Kind == simos.SFileRead
+			thin := st.Kind == simos.SWrite || st.Kind == simos.SStdinRead || st.Kind == simos.SFileRead || st.Kind == simos.SStdout || st.Kind == simos.SStderr
 			if thin {
 				if runStart >= 0 && res.Steps[runStart].Kind == st.Kind {
 					continue
